@@ -3,6 +3,7 @@
 //
 //	wal replay <hist.ndjson> <trace.ndjson> [maxidx]
 //	wal random <n> <maxlen> <seed> <trace.ndjson>
+//	wal long <trace.ndjson> <n>:<snapshot bytes> ...   (logs of n entries compacted by one local snapshot)
 //
 // Every call is issued to both stores (several groups in ONE Badger database);
 // after it every group's store is asked every query and both answer sets are logged.
@@ -303,6 +304,14 @@ func main() {
 			}
 			enc.Encode(event{Ev: "end", Hid: hid, Terms: []int{}})
 		}
+	case "long":
+		w, _ := os.Create(os.Args[2])
+		defer w.Close()
+		for hid, a := range os.Args[3:] {
+			var n, sb int
+			fmt.Sscanf(a, "%d:%d", &n, &sb)
+			long(db, json.NewEncoder(w), hid+1, n, sb)
+		}
 	case "random":
 		n, _ := strconv.Atoi(os.Args[2])
 		maxlen, _ := strconv.Atoi(os.Args[3])
@@ -397,4 +406,105 @@ func random(db *badger.DB, groups []string, n, maxlen int, seed int64, out strin
 		}
 		enc.Encode(event{Ev: "end", Hid: hid, Terms: []int{}})
 	}
+}
+
+// summary: the answers of a store with a long log, at the places where something can differ
+func summary(s etcdRaft.Storage) (out string) {
+	defer func() {
+		if r := recover(); r != nil {
+			out = fmt.Sprint("panic: ", r)
+		}
+	}()
+	fi, e1 := s.FirstIndex()
+	li, e2 := s.LastIndex()
+	out = fmt.Sprintf("first=%d,%s last=%d,%s", fi, code(e1), li, code(e2))
+	for _, i := range []uint64{0, 1, 2, fi - 2, fi - 1, fi, fi + 1, li - 1, li, li + 1} {
+		if int64(i) < 0 {
+			continue
+		}
+		tm, err := s.Term(i)
+		out += fmt.Sprintf(" t%d=%d,%s", i, tm, code(err))
+	}
+	sn, err := s.Snapshot()
+	dh := uint64(0)
+	for _, b := range sn.Data {
+		dh = dh*1000003 + uint64(b)
+	}
+	out += fmt.Sprintf(" snap=%d,%d,%d:%x,%d,%s", sn.Metadata.Index, sn.Metadata.Term, len(sn.Data), dh, len(sn.Metadata.ConfState.Nodes), code(err))
+	hs, cs, err := s.InitialState()
+	out += fmt.Sprintf(" init=%d,%d,%s", hs.Term, len(cs.Nodes), code(err))
+	for _, r := range [][2]uint64{{fi, li + 1}, {fi - 1, fi + 1}, {1, 3}, {li, li + 1}} {
+		if int64(r[0]) < 0 {
+			continue
+		}
+		es, err := s.Entries(r[0], r[1], 1<<40)
+		h := uint64(0)
+		for _, e := range es {
+			h = h*1000003 + e.Index*31 + e.Term
+		}
+		out += fmt.Sprintf(" e[%d,%d)=%d,%x,%s", r[0], r[1], len(es), h, code(err))
+	}
+	return out
+}
+
+// long: a write burst between two snapshot rounds.  n entries are appended in batches, a local snapshot at n-2
+// compacts them in one call, the store is reopened and written to again; after every stage both stores answer.
+func long(db *badger.DB, enc *json.Encoder, hid, n, snapBytes int) {
+	gid := uuid.NewV4()
+	data := make([]byte, snapBytes)
+	for i := range data {
+		data[i] = byte('a' + i%7)
+	}
+	var bw wal.WAL = wal.NewBadgerWAL(db, gid)
+	ms := etcdRaft.NewMemoryStorage()
+	cs := &pb.ConfState{Nodes: []uint64{1}}
+	enc.Encode(event{Ev: "reset", Hid: hid, Terms: []int{}})
+	stage := func(name string, fn func() error) {
+		errs := ""
+		func() {
+			defer func() {
+				if r := recover(); r != nil {
+					errs = fmt.Sprint("panic: ", r)
+				}
+			}()
+			if err := fn(); err != nil {
+				errs = err.Error()
+			}
+		}()
+		enc.Encode(map[string]interface{}{"ev": "long", "stage": name, "n": n, "snapbytes": snapBytes, "err": errs, "lb": summary(bw), "lm": summary(ms)})
+	}
+	stage("append", func() error {
+		for at := 1; at <= n; at += 5000 {
+			var ents []pb.Entry
+			for i := at; i < at+5000 && i <= n; i++ {
+				ents = append(ents, pb.Entry{Index: uint64(i), Term: uint64(1 + i/(n/3+1)), Data: []byte("d")})
+			}
+			if err := bw.Save(pb.HardState{Term: 3, Vote: 1}, ents, pb.Snapshot{}); err != nil {
+				return err
+			}
+			ms.Append(ents)
+			ms.SetHardState(pb.HardState{Term: 3, Vote: 1})
+		}
+		return nil
+	})
+	stage("compact", func() error {
+		ms.CreateSnapshot(uint64(n-2), cs, data)
+		ms.Compact(uint64(n - 2))
+		_, err := bw.CreateSnapshot(uint64(n-2), cs, data)
+		return err
+	})
+	stage("reopen", func() error { bw = wal.NewBadgerWAL(db, gid); return nil })
+	stage("append2", func() error {
+		ents := []pb.Entry{{Index: uint64(n + 1), Term: 3, Data: []byte("d")}, {Index: uint64(n + 2), Term: 3, Data: []byte("d")}}
+		ms.Append(ents)
+		return bw.Save(pb.HardState{}, ents, pb.Snapshot{})
+	})
+	stage("compact2", func() error {
+		ms.CreateSnapshot(uint64(n+1), cs, []byte("c"))
+		ms.Compact(uint64(n + 1))
+		_, err := bw.CreateSnapshot(uint64(n+1), cs, []byte("c"))
+		return err
+	})
+	stage("reopen2", func() error { bw = wal.NewBadgerWAL(db, gid); return nil })
+	enc.Encode(event{Ev: "end", Hid: hid, Terms: []int{}})
 }
